@@ -217,8 +217,8 @@ def families(tier):
         prem += ["size <= 3", "-1 <= a2 <= 1", "-1 <= a3 <= 1", "a4 == 0", "x3 == 1 or x3 == 3 or x3 == 4 or x3 == 5", "x4 == 4 or x4 == %d" % NOP]
         partsm = parts_product(k=(1, 2), x2=(0, 1, 2, 4, 5))
     else:
-        prem += ["-1 <= a2 <= 2", "-1 <= a3 <= 2", "-1 <= a4 <= 2"]
-        partsm = parts_product(k=(1, 2), c=(1, 2), x2=range(NOP), x3=range(NOP + 1))
+        prem += ["size <= 3", "-1 <= a2 <= 1", "-1 <= a3 <= 1", "-1 <= a4 <= 1"]
+        partsm = parts_product(k=(1, 2), x2=range(NOP), x3=range(NOP + 1))
     famm = Family(name="flushm", fn="tpl_flushm", params=PM, pre=prem, parts=partsm,
                   twin_pre=["k == 1", "c == 1", "x2 == 1", "x3 == 3", "x4 == 4"], twin_args=[2, 1, 1, 1, 0, 3, 0, 4, 0])
     return [famc, famo, famp, famq, famm, Family(name="flush", fn="tpl_flush", params=P, pre=pre, parts=parts,
